@@ -31,7 +31,9 @@ def mv_records(rnd, thorough):
                 r = fn(*arrays)
                 o = r
             else:
-                o = np.zeros(bs, dtype=np.uint8) if out_mode == 'fresh' else np.full(bs, rnd.choice([1, 2, 3, 5, 7]), dtype=np.uint8)
+                # (out= of another integer type: np.full(shape, logic.UNASSIGNED) is int64, stil.py passes such arrays)
+                dt = {'fresh-int64': np.int64, 'dirty-int32': np.int32}.get(out_mode, np.uint8)
+                o = np.zeros(bs, dtype=dt) if out_mode.startswith('fresh') else np.full(bs, rnd.choice([1, 2, 3, 5, 7]), dtype=dt)
                 r = fn(*arrays, out=o)
             r = np.asarray(r)
             rec['res'] = r.reshape(-1).astype(int).tolist()
@@ -43,7 +45,7 @@ def mv_records(rnd, thorough):
 
     vals = np.arange(8, dtype=np.uint8)
     a2, b2 = np.meshgrid(vals, vals, indexing='ij')
-    for mode in (None, 'fresh', 'dirty'):
+    for mode in (None, 'fresh', 'dirty', 'fresh-int64', 'dirty-int32'):
         recs.append(call(fns['not_'], 'not', [vals.copy()], mode))
         for name in ('and', 'or', 'xor'):
             fn = fns[name + '_' if name != 'xor' else 'xor']
@@ -181,7 +183,7 @@ def main(tier=None, replay=None):
         ck.count('%s-%s-k%d' % (x['form'], x['fn'], len(x['ins'])))
         ck.count('mode:' + x['mode'])
         ck.nontrivial.add(sig(x))
-    ck.need_cover(['bp8-and-k4', 'bp4-xor-k3', 'bp8-not-k1', 'mv-and-k2', 'mv-not-k1', 'mode:dirty', 'mode:fresh', 'mode:alias', 'mode:None', 'mode:view-stride', 'mode:view-transpose', 'mode:kary'])
+    ck.need_cover(['bp8-and-k4', 'bp4-xor-k3', 'bp8-not-k1', 'mv-and-k2', 'mv-not-k1', 'mode:dirty', 'mode:fresh', 'mode:fresh-int64', 'mode:dirty-int32', 'mode:alias', 'mode:None', 'mode:view-stride', 'mode:view-transpose', 'mode:kary'])
     ck.sample(dict(fn=recs[5]['fn'], form=recs[5]['form'], shapes=recs[5]['shapes'], ins=[i[:8] for i in recs[5]['ins']], res=recs[5]['res'][:8]))
     ck.extra['exhaustive'] = True
     ck.assumptions += ['public API only: mv_* are unary/binary, bp*v_* take 1..4 operands', 'TLC, JSON reader, NumPy broadcasting used to flatten operands']
